@@ -28,8 +28,9 @@ ASSUMPTIONS = [
     "preconditions simplifying to FALSE are invalid (None) even if the conflicting values coincide in a particular state",
     "multi-variable Exists are written nested: Simplifier.walk_exists rebuilds its variable list from a Python set, so its "
     "iteration order (observable through early exit over undefined fluents) is hash-dependent",
-    "Exists whose body has an `x == t` conjunct on the bound variable are kept out: the elimination in Simplifier.walk_exists is "
-    "being repaired by property C11 (D-C11b/c/d) and the driver uses a local stand-in for the simplifier until C11's model lands",
+    "the grounder's simplifier in the driver is property C11's verified model of the REPAIRED simplifier "
+    "(notes/patches/C11-simplifier-soundness.patch); on a tree without that patch (auto-detected) Exists whose body has an "
+    "`x == t` conjunct on the bound variable are kept out (D-C11b/c/d)",
     "a condition that reads an undefined fluent only in instances an early-exit quantifier never reaches may be satisfied "
     "(the evaluator documents the early exit); the oracle accepts both readings there",
     "integer constants stay below 2**53 (Simplifier.walk_div float division, D-C11a, is repaired by C11's patch)",
@@ -42,11 +43,11 @@ MODELLED = [
     "get_unsatisfied_goals, _is_goal), StateEvaluator/QuantifierSimplifier evaluation incl. early exit, UPState.get_value/"
     "make_child as a finite map, GrounderHelper.ground_action/create_action_with_given_subs, Effect.__init__/expand_effect, "
     "check_conflicting_effects, ExpressionQuantifiersRemover, get_all_fluent_exp",
-    "the simplifier is a parameter of the theorems; the driver runs a local stand-in (Core/SimSimp.lean) mirroring "
-    "simplifier.py on the generated fragment until property C11's verified model replaces it",
+    "the simplifier is a parameter of the theorems; the driver instantiates it with property C11's model "
+    "(Core/Walkers/Simplify.lean) configured like env.simplifier (no problem, no static fluents)",
     "not modelled: simulated effects, user callables of interpreted functions, Python dict/set, Fraction",
 ]
-BUDGET_S = {"quick": 45, "thorough": 500}
+BUDGET_S = {"quick": 45, "thorough": 300}
 SEARCH_S = {"quick": 40, "thorough": 200}
 
 _cache = {}
